@@ -334,6 +334,41 @@ def check_one_step(acc, ia, ib, func, param, U):
     judge(acc, case, func, da, db, a, b, param, before_a, before_b, ids, outcome, 'C10/step')
 
 
+def check_dropped_master(acc, ia, ib, func, param, U):
+    """The user keeps only the SLAVE (a helper that builds a stage and returns its output gear): the mutual link must still
+    be there afterwards -- slave.driven_by is the master it was declared with, and that master drives the slave."""
+    import gc
+    if ia == ib:
+        return
+    case = {'kind': 'dropped', 'a': ia, 'b': ib, 'func': func, 'param': param}
+
+    def stage():
+        a = build(U[ia], 'a')
+        b = build(U[ib], 'b')
+        return b if call(func, a, b, param) == 'ok' else None
+    b = stage()
+    if b is None:
+        return
+    gc.collect()
+    acc.transitions += 1
+    up = b.driven_by
+    if up is None or getattr(up, 'name', None) != 'a' or getattr(up, 'drives', None) is not b:
+        acc.violation(f'C10/step/link-lost-when-master-dropped/{func}', 'the two elements are linked mutually', case,
+                      {'driven_by': str(up), 'drives_back': str(getattr(up, 'drives', None))})
+        return
+    # a deep copy of the stage is a stage again: the copied slave's driver is the copied master
+    import copy
+    try:
+        b2 = copy.deepcopy(b)
+    except Exception:
+        return                      # (copying elements is not something the property speaks about)
+    up2 = b2.driven_by
+    if up2 is None or up2 is up or getattr(up2, 'drives', None) is not b2:
+        acc.violation(f'C10/step/link-not-copied-consistently/{func}', 'the two elements are linked mutually', case,
+                      {'copied_driver_is_original': up2 is up, 'copied_driver': str(up2)})
+    acc.outcomes[('dropped-master', func, 'linked')] += 1
+
+
 # -- histories ---------------------------------------------------------------------
 HU = [('M',), ('F',), ('S', 20, 1.0), ('S', 30, 1.0), ('H', 20, 20.0, 'deg'),
       ('Wg', 2, 20.0, 10.0, 'deg'), ('Ww', 30, 20.0, 10.0, 'deg')]
@@ -451,11 +486,15 @@ def run_shard(shard, tier):
                 acc.nstates += 1
             check_one_step(acc, ia, ib, 'joint', None, U)
             acc.nstates += 1
+            check_dropped_master(acc, ia, ib, 'joint', None, U)
+            check_dropped_master(acc, ia, ib, 'gear', 0.9, U)
             worm = U[ia] if U[ia][0] == 'Wg' else (U[ib] if U[ib][0] == 'Wg' else None)
             fr = frictions(worm) if worm else [0.1, 1.1, 'x']
             for f in fr:
                 check_one_step(acc, ia, ib, 'worm', f, U)
                 acc.nstates += 1
+            if worm:
+                check_dropped_master(acc, ia, ib, 'worm', fr[2], U)
         acc.cases += acc.nstates
         acc.executions += acc.nstates
         acc.sample({'mode': 'one step', 'master': U[ia], 'slave': U[-1], 'functions': FUNCS, 'efficiencies': EFFS})
@@ -476,6 +515,9 @@ def run_shard(shard, tier):
 
 def replay(case):
     acc = Acc()
+    if case.get('kind') == 'dropped':
+        check_dropped_master(acc, case['a'], case['b'], case['func'], case['param'], universe())
+        return acc.violations
     if case.get('kind') == 'step':
         check_one_step(acc, case['a'], case['b'], case['func'], case['param'], universe())
     elif case.get('kind') == 'hist':
